@@ -141,6 +141,18 @@ def check_comparators(rep, prog):
             elif results['lt'] == results['gt']:
                 problems.append('a.%s < b.%s and a.%s > b.%s give the same answer (%s): paths that differ in %s compare as equivalent' % (
                     fname, fname, fname, fname, list(results['lt'])[0], fname))
+        if not problems and 'LexDistanceCompare' in fn.g:
+            # the label is (distance, hop count, vertex-index set) and LexDistanceCombine maintains all three (R12d): the comparator must consult
+            # the hop count of both labels.  Without that rung two equally long paths with different hop counts are ordered by the vertex-set rule
+            # alone, which is not closed under taking sub-paths: trees from different roots choose different paths between the same two vertices
+            a_, b_ = fn.param_ids
+            read = {}
+            for d in fn.walk():
+                if d.k == 'MemberExpr' and d.decl and d.decl.get('kind') == 'field' and d.c and ex.var_of(d.c[0]) in (a_, b_):
+                    read.setdefault(d.decl.get('name'), set()).add(ex.var_of(d.c[0]))
+            if 'vertex_indices' in read and 'distance' in read and len(read.get('edge_count', ())) < 2:
+                problems.append('the hop count (edge_count) of the two labels is %s: equally long paths with different hop counts are ordered by the vertex-set rule alone, '
+                                'and the shortest-path trees of different roots are no longer consistent' % ('never compared' if not read.get('edge_count') else 'read for one label only'))
         if problems:
             rep.violation('R12a', fn.body, fn, what, '; '.join(problems), key='R12a|%s|ladder' % fn.g)
         else:
